@@ -59,8 +59,8 @@ fn shapes(b: &[u8], rich: bool, out: &mut Vec<Spec>) {
             out.push(Spec::Bytes(r, b.to_vec()));
         }
     }
-    for r in 0..3u8 {
-        if rich || r == 2 {
+    for r in 0..5u8 {
+        if rich || r == 2 || r == 3 {
             out.push(Spec::BytesMut(r, b.to_vec()));
         }
     }
@@ -410,6 +410,13 @@ pub fn run(tier: &str, parity_odd: bool, shard: usize, nshards: usize, rep: &mut
                     all.extend((0..avail).map(|i| 0x31 + i as u8));
                     let mut specs = vec![];
                     shapes(&all, rich, &mut specs);
+                    // an io::Cursor whose position is beyond its data holds nothing, alone or in front of the bytes
+                    specs.push(Spec::Chain(Box::new(Spec::Cursor(vec![1, 2], 3)), Box::new(Spec::Slice(all.clone()))));
+                    if all.is_empty() {
+                        specs.push(Spec::Cursor(vec![1, 2], 3));
+                        specs.push(Spec::Cursor(vec![], u64::MAX));
+                        specs.push(Spec::Take(Box::new(Spec::Cursor(vec![1, 2, 3], 5)), 4));
+                    }
                     for (si, spec) in specs.iter().enumerate() {
                         if pass == 0 && si % 11 != 0 {
                             continue;
@@ -441,6 +448,53 @@ pub fn run(tier: &str, parity_odd: bool, shard: usize, nshards: usize, rep: &mut
             }
         }
     }
+    // a finite header chained before an endless source (remaining() saturates at usize::MAX): every getter must see
+    // header bytes followed by the stream, in both flavours
+    let mut endless = 0u64;
+    for (mi, m) in meths.iter().enumerate() {
+        if mi % nshards != shard || m.size == 0 {
+            continue;
+        }
+        for h in 0..=m.size.min(3) {
+            let hdr: Vec<u8> = (0..h).map(|i| 0x11 * (i as u8 + 1)).collect();
+            let mut bytes = hdr.clone();
+            while bytes.len() < m.size {
+                // the endless source never moves (advance is a no-op, chunk() is always the 8-byte pattern)
+                let need = m.size - bytes.len();
+                bytes.extend_from_slice(&crate::cursor::PATTERN[..need.min(8)]);
+            }
+            let want = decode(&bytes[..m.size], m.order, m.signed);
+            for flavour in 0..2 {
+                let name = if flavour == 0 { m.name.clone() } else { format!("try_{}", m.name) };
+                oracle::sys::set_crash_note(&format!("typed endless {}({:?}) header {} bytes", name, m.nbytes, h));
+                oracle::begin_execution(parity_odd);
+                cx.execs += 1;
+                endless += 1;
+                let hd: &'static [u8] = oracle::harness(|| Box::leak(hdr.clone().into_boxed_slice()));
+                let r = oracle::subject(|| catch_unwind(AssertUnwindSafe(|| {
+                    let mut t = Tree::Dyn(Box::new(Buf::chain(hd, crate::cursor::Endless)));
+                    let rem0 = t.remaining();
+                    let out = if flavour == 0 { Ok((m.get)(&mut t)) } else { (m.try_get)(&mut t) };
+                    (rem0, out)
+                })));
+                let _ = oracle::end_execution();
+                let spec = Spec::Slice(hdr.clone());
+                match r {
+                    Ok((rem0, Ok(v))) => {
+                        if rem0 != usize::MAX {
+                            cx.fail(&format!("{}:endless-remaining", name), format!("a {}-byte header chained before an endless source reports remaining() = {}, want usize::MAX", h, rem0), &spec, 0, &name, m.nbytes);
+                        }
+                        if v != want {
+                            cx.fail(&format!("{}:endless-value", name), format!("{} on a {}-byte header chained before an endless source returned {:#x}, the next bytes {:02x?} decode to {:#x}", name, h, v, &bytes[..m.size], want), &spec, 0, &name, m.nbytes);
+                        }
+                    }
+                    Ok((_, Err(e))) => cx.fail(&format!("{}:endless-err", name), format!("{} on a {}-byte header chained before an endless source returned {:?}", name, h, e), &spec, 0, &name, m.nbytes),
+                    Err(_) => cx.fail(&format!("{}:endless-panic", name), format!("{} on a {}-byte header chained before an endless source panicked", name, h), &spec, 0, &name, m.nbytes),
+                }
+            }
+        }
+    }
+    cx.rep.extra_num("endless_source_cells", endless);
     // nbytes > 8 must panic for both flavours (documented)
     for g in VGETTERS.iter() {
         for nb in [9usize, 16, usize::MAX] {
